@@ -25,10 +25,23 @@ FIXED = [
  ("C11","cb678c3","C11:budget:counted-past-N+1","budget tripping inside a procedure run by an operator executed the interrupt handler: NumOps reached N+2.., and on a full operand stack the budget error was replaced by stackoverflow (`1 2 add {3} exec` with N=6)"),
  ("C11","bef94a8","C11:crash:growth:/r {r 1} def r","`/r {r 1} def r` without budget recursed in Go until the goroutine stack was exhausted (process death); name calls now count towards execstackoverflow"),
  ("C17","6fa95a8","C17:order-dependent:Metrics.Write","afm.Metrics.Write ranged over the ligature map directly: two ligatures on one glyph were written in either order"),
+ ("C06","2e892d5","C06:flex-after-line:spurious-closepath","a flex directly after a line segment was decoded with a spurious closepath inside the contour"),
+ ("C06","59475fd","C06:seac:accent-closepath-dropped","the accent's closepath commands were dropped when a seac composite was expanded"),
+ ("C10","b469c1b","C10:header-injection:version-line-end","a /version string containing a line break was copied into the %!FontType1 header comment; the written font could not be re-read (also reported by C08/C09 as version-line-break-in-header-comment)"),
+ ("C09","15a5927","C09:encoding:subset-of-StandardEncoding-written-as-StandardEncoding","an encoding leaving the standard code of an existing glyph unassigned was written as StandardEncoding and came back with that code assigned (also C08, C10)"),
+ ("C09","f6a5c04","C09:creation-date:unnamed-zone-lost","a creation time in a zone without a name was written as `... +0530 +0530`, which no accepted layout parsed: it came back as the zero time"),
+ ("C15","b2bba1f","C15:write-read:Version:lost","afm.Metrics.Write emitted neither Version nor Notice (keys Version:lost and Notice:lost)"),
+ ("C15","a24b358","C15:write-read:glyph-bbox:huge-value-corrupted","AFM bounding box coordinates beyond the int range (`B 1e30 ...`) were written as -9223372036854775808"),
+ ("C19","b8b49d5","C19:afm.GlyphList:notdef-missing","afm.Metrics.GlyphList omitted .notdef when the glyph map had none, so it neither started with .notdef nor had NumGlyphs entries"),
+ ("C04","8499a02","C04:number-syntax:underscore-spelling-read-as-number","names such as 1_0 and 0x1p4 were scanned as the numbers 10 and 16 (keys underscore-spelling-read-as-number, hex-float-spelling-read-as-number)"),
+ ("C04","d1332c2","C04:string:literal:line-feeds-after-CR-LF-dropped","in a literal string every LF following a CR was dropped: (a\\r\\n\\nb) read as a\\nb"),
  ("C16","c23956e","C16:glyphlist:multi-code-entry-maps-to-U+0000","the 81 glyph list entries denoting several characters mapped to U+0000 (ToUnicode(\"dalethatafpatah\") = [0000] instead of [05D3 05B2])"),
 ]
 OPEN = [
  # (property, key, what)
+ ('C08', 'C08:glyph-name-shadows-font-program-operator', 'a glyph named RD, ND, end, def, string, currentfile, exch, readstring or pop is defined in the CharStrings dictionary while that dictionary is on the dictionary stack and shadows the operator of that name for the rest of the font program; the file no longer decodes (inherent in the `dict dup begin /name n RD ... ND ... end` form of the Adobe format, which the writer follows; same as C09)'),
+ ('C09', 'C09:glyph-name-shadows-font-program-operator', 'a glyph named RD, ND, end, def, string, exch, readstring or pop (followed by at least one more glyph in name order) is defined in the CharStrings dictionary while that dictionary is on the dictionary stack, and shadows the operator of that name for the rest of the font program; type1.Read of the written file fails (inherent in the `dict dup begin /name n RD ... ND ... end` form of the Adobe format, which the writer follows)'),
+ ('C10', 'C10:glyph-named-RD-ND-NP-shadows-procedure', "a font that uses the -| |- | procedure names and contains a glyph named ND (or RD, NP) together with a glyph sorting after it is accepted; Font.Write emits `/ND <n> RD <data> ND` inside `CharStrings ... dict dup begin`, which redefines ND as a string in the CharStrings dictionary, so the next glyph's ND pushes a string instead of executing `def` and re-reading fails (typecheck in put)"),
 ]
 def main():
     out = []
